@@ -12,7 +12,8 @@ use crate::vals;
 pub const RULE: &str = "case = one xconst routine (safe functions under each dispatcher mask always; per-backend \
 exports when built with feature xconst) at one DIMS of XCONST_DIMS, called with slices of exactly DIMS elements, \
 together with the xany routine of the same name (xconst -> xany) on the same inputs. Outcomes must be \
-bit-identical (floats included; NaN matches NaN) with identical panic behaviour; on nightly builds float \
+bit-identical (floats included; NaN matches NaN; for max/min either zero is accepted as in C05) with identical \
+panic behaviour; on nightly builds float \
 reductions / cosine / float division may differ by twice the C04 / C06 / C02 tolerance and are then fed \
 well-scaled finite data. Value classes: mixed boundary/random without NaN, small integers, scaled finite floats, \
 integer division with a zero divisor at a chosen index (both must panic), full-range integers for cosine. \
@@ -44,7 +45,9 @@ fn check<T: Elem>(c: &VecCall<T>, partner: &Routine<T>, ar: &mut Arenas) -> Verd
     let mismatch: Option<String> = match (&e1.out, &e2.out) {
         (Out::Panic(_), Out::Panic(_)) => None,
         (Out::Scalar(x), Out::Scalar(y)) => {
-            if x.to_bits() == y.to_bits() || (x.is_nan() && y.is_nan()) {
+            // max/min: +0 and -0 compare equal, either zero is a correct extreme (C05)
+            let zeros = T::FLOAT && op.is_minmax() && x == y;
+            if x.to_bits() == y.to_bits() || (x.is_nan() && y.is_nan()) || zeros {
                 None
             } else if nightly && T::FLOAT && (op.is_sum_like() || op == Op::Cosine) {
                 let tol = match expected(c) {
@@ -77,7 +80,9 @@ fn check<T: Elem>(c: &VecCall<T>, partner: &Routine<T>, ar: &mut Arenas) -> Verd
                 (0..x.len())
                     .find(|&i| {
                         let (p, q) = (x[i], y[i]);
-                        let same = p.to_bits() == q.to_bits() || (p.is_nan() && q.is_nan());
+                        let same = p.to_bits() == q.to_bits()
+                            || (p.is_nan() && q.is_nan())
+                            || (T::FLOAT && op.is_minmax() && p == q);
                         let close = nightly
                             && T::FLOAT
                             && op.is_div()
